@@ -30,7 +30,7 @@ WORK = os.path.join(vlib.OUT, "c07")
 BATCH = 200
 NPAR = max(2, min(12, vlib.NCPU - 2))
 RUN_TIMEOUT = 40          # expression files
-STMT_TIMEOUT = 15         # statement files (a wrong compiler easily produces endless loops)
+STMT_TIMEOUT = 60         # statement files (a wrong compiler easily produces endless loops)
 MAX_ISOLATE = 30          # time-outs isolated per run before the rest of a batch that times out is only counted
 
 ENGINES = {
@@ -271,16 +271,32 @@ def render_file(cases, ids):
         L.append(INIT_PRELUDE)
     for c, i in zip(cases, ids):
         L += render_stmt(c, i) if fam == "stmt" else render_init(c, i) if fam == "init" else render_expr(c, i)
-    L.append("int main(void) {")
+    # every case runs in a child process with its own time limit, so that a crash or an endless loop produced by the
+    # compiler under test costs one case ("<id> X <wait status>") and not the batch
     for c, i in zip(cases, ids):
         if fam == "stmt":
-            L.append("  printf(\"%d S\"); { int r = c%d(); printf(\" ret=%%d\\n\", r); } fflush(stdout);" % (i, i))
-        else:
-            L.append("  c%d(); fflush(stdout);" % i)
+            L.append("static void w%d(void) { printf(\"%d S\"); { int r = c%d(); printf(\" ret=%%d\\n\", r); } }" % (i, i, i))
+    L.append(RUNNER)
+    L.append("int main(void) {")
+    for c, i in zip(cases, ids):
+        L.append("  run_case(%s%d, %d);" % ("w" if fam == "stmt" else "c", i, i))
     L.append("  printf(\"END\\n\");")
     L.append("  return %d;" % (len(cases) % 50 + 3))
     L.append("}")
     return "\n".join(L) + "\n"
+
+
+RUNNER = """int fork(void); int waitpid(int, int *, int); unsigned alarm(unsigned); void _exit(int);
+static void run_case(void (*f)(void), int id) {
+  int pid, st = 0;
+  fflush(stdout);
+  pid = fork();
+  if (pid == 0) { alarm(%d); f(); fflush(stdout); _exit(0); }
+  if (pid < 0) { f(); fflush(stdout); return; }
+  waitpid(pid, &st, 0);
+  if (st != 0) { printf("\\n%%d X %%d\\n", id, st); fflush(stdout); }
+}
+""" % 3
 
 
 def expected(c):
@@ -502,6 +518,11 @@ def judge(c2m, engines, cases, tag, stats, extra_engines=()):
             out = out.get(i, {})
             if st != "ok":
                 stats.fail.append((c, n, "*", [st.split("(")[0]], None, None, st + " " + err.strip()[-200:]))
+                continue
+            if "X" in out:       # the child running this case was killed: wait status = signal number
+                sig = int(out["X"][0]) & 0x7f if out["X"] and out["X"][0].isdigit() else 0
+                kind = "timeout" if sig == 14 else "crash"
+                stats.fail.append((c, n, "*", [kind], None, None, "timeout" if sig == 14 else "crash(-%d)" % sig))
                 continue
             if n in sa_fail.get(i, ()):
                 stats.fail.append((c, n, "C", ["static_assert"], e.get("C"), out.get("C"), st))
